@@ -36,10 +36,11 @@ Fixpoint find_root_strict (roots : list path) (r : path) : option path :=
   | d :: rest => if is_prefix d r && Nat.ltb (length d) (length r) then Some d else find_root_strict rest r
   end.
 
-(* "a recognised source extension": one of the extensions of a language CBI can
-   parse (FileLanguage's table), NOT the list is_source_file carries *)
+(* "a recognised source extension": the extension, as FileLanguage computes it
+   (os.path.splitext), is one of the extensions of a language CBI can parse
+   (FileLanguage's table) - NOT the function and the list is_source_file carries *)
 Definition has_language (p : path) : bool :=
-  is_source_name (flat_map snd language_extensions) (last p "").
+  has_ext_in (flat_map snd language_extensions) (last p "").
 
 Definition member_resolved (fs : fsys) (cb : codebase) (r : path) : res bool :=
   match lookup fs r with
